@@ -259,3 +259,206 @@ Print Assumptions C16_old_R4_purge_before_decl_refuted.
 Print Assumptions C16_old_R4_purge_literal_arg_refuted.
 Print Assumptions C16_old_R5_leak_refuted.
 Print Assumptions C16_old_local_refuted.
+
+(* ========================================================================================================== *)
+(* The ASSEMBLED response.  What the client receives is not a checker's own list but the items of              *)
+(* ProjectManager::generate_document_diagnostic_report: parser diagnostics, then the two IAstNode analysers'  *)
+(* lists, then the ONE collector the three annotated-tree checkers push into during ONE pre-order walk.        *)
+(* Model/Report.v: report t pd = those items in order, for the tree t and the document's parser diagnostics   *)
+(* pd; proofs in Proofs/ReportProofs.v; the witness of Proofs/ReportWitness.v is a dump of the real parser.    *)
+(*   origin d        which source an item comes from, told by its message: 0 parser, 1 UnusedVarAnalyzer,     *)
+(*                   2 FunctionReturnTypeChecker, 3 Unpurged.., 4 NamingConvention.., 5 InheritedChecker      *)
+(*   part k l        the items of l that come from source k, in the order of l                                *)
+(*   own_report k    source k's own list: map of_pdiag pd, map of_uv (analyze_today t), map of_lint of          *)
+(*                   ret_type_lint / unpurged_lint / naming_lint / inherited_lint t                            *)
+(* ========================================================================================================== *)
+From GoldV Require Import Report ReportProofs ReportWitness.
+From GoldV Require UnusedVar UnusedVarProofs.
+
+(* every theorem above about ret_type_lint / unpurged_lint / naming_lint / inherited_lint (and every theorem of C15
+   about analyze_today) is a theorem about the response: the response is a permutation of the six lists *)
+Theorem C16_response_permutation : forall t pd,
+  Permutation (report t pd)
+    (map of_pdiag pd ++ map of_uv (UnusedVar.analyze_today t) ++ map of_lint (Lints.ret_type_lint t) ++
+     map of_lint (Lints.unpurged_lint t) ++ map of_lint (Lints.naming_lint t) ++ map of_lint (Lints.inherited_lint t)).
+Proof. exact report_permutation. Qed.
+
+Theorem C16_response_lints : forall t pd,
+  Permutation (report t pd)
+    (map of_pdiag pd ++ map of_uv (UnusedVar.analyze_today t) ++ map of_lint (Lints.lints t)).
+Proof. exact report_permutation_lints. Qed.
+
+(* each flagged once and nothing else is flagged -- in the response: its rule items are, as a multiset, one per
+   declaration satisfying its rule (C16_lints_exact lifted) *)
+Theorem C16_response_rules_exact : forall t pd,
+  RootNotFunction t = true ->
+  Permutation (report t pd)
+    (map of_pdiag pd ++ map of_uv (UnusedVar.analyze_today t) ++ map of_lint (lints_spec t)).
+Proof. exact report_rules_exact. Qed.
+
+(* stronger than a permutation: for EVERY source the items of the response that come from it, read in the order
+   of the response, ARE that source's own list (same items, as often, same order): nothing is dropped, merged,
+   deduplicated or reordered within a source, whatever the ranges and names of the items are *)
+Theorem C16_response_each_source_intact : forall k t pd, part k (report t pd) = own_report k t pd.
+Proof. exact report_part. Qed.
+
+(* nothing dropped, nothing invented *)
+Theorem C16_response_nothing_dropped_nothing_invented : forall t pd d,
+  In d (report t pd) <->
+  In d (map of_pdiag pd) \/ In d (alone_unused t) \/ In d (alone_ret t) \/
+  In d (alone_unpurged t) \/ In d (alone_naming t) \/ In d (alone_inherited t).
+Proof. exact report_in_iff. Qed.
+
+Theorem C16_response_in_own_source : forall t pd d,
+  In d (report t pd) <-> In d (own_report (origin d) t pd).
+Proof. exact report_in_own. Qed.
+
+(* an item is in the response exactly as often as its own checker reports it ... *)
+Theorem C16_response_multiplicity : forall t pd d,
+  count_occ diag_eq_dec (report t pd) d = count_occ diag_eq_dec (own_report (origin d) t pd) d.
+Proof. exact report_multiplicity. Qed.
+
+Theorem C16_response_multiplicity_sum : forall t pd d,
+  count_occ diag_eq_dec (report t pd) d =
+  (count_occ diag_eq_dec (map of_pdiag pd) d + count_occ diag_eq_dec (alone_unused t) d +
+   count_occ diag_eq_dec (alone_ret t) d + count_occ diag_eq_dec (alone_unpurged t) d +
+   count_occ diag_eq_dec (alone_naming t) d + count_occ diag_eq_dec (alone_inherited t) d)%nat.
+Proof. exact report_multiplicity_sum. Qed.
+
+(* ... so a warning its checker flags once is there once, and two rules firing on one name are both there *)
+Theorem C16_response_flagged_once : forall t pd d,
+  count_occ diag_eq_dec (own_report (origin d) t pd) d = 1%nat -> count_occ diag_eq_dec (report t pd) d = 1%nat.
+Proof. exact report_flagged_once. Qed.
+
+Theorem C16_response_both_rules : forall t pd x y,
+  In x (Lints.lints t) -> In y (Lints.lints t) -> In (of_lint x) (report t pd) /\ In (of_lint y) (report t pd).
+Proof. exact report_both_rules. Qed.
+
+(* order: the parser's diagnostics first, in the parser's order, none later *)
+Theorem C16_response_parser_first : forall t pd,
+  firstn (length pd) (report t pd) = map of_pdiag pd /\
+  Forall (fun d => origin d <> 0%N) (skipn (length pd) (report t pd)).
+Proof. exact report_parser_first. Qed.
+
+(* then the analysers in the fixed order: UnusedVarAnalyzer's list, FunctionReturnTypeChecker's list, then the
+   shared collector: the pre-order listing of the tree with, per node, what unpurged / naming / inherited push
+   there -- an order-preserving interleaving of the three checkers' own lists *)
+Theorem C16_response_groups_in_order : forall t pd,
+  exists shared,
+    report t pd = map of_pdiag pd ++ alone_unused t ++ alone_ret t ++ shared /\
+    shared = map of_lint (flat_map node_verdicts (pre [] t)) /\
+    Permutation shared (alone_unpurged t ++ alone_naming t ++ alone_inherited t) /\
+    part 3 shared = alone_unpurged t /\ part 4 shared = alone_naming t /\ part 5 shared = alone_inherited t.
+Proof. exact report_groups. Qed.
+
+Theorem C16_response_shared_collector : forall t, v2_walk t = flat_map node_verdicts (pre [] t).
+Proof. exact v2_walk_eq. Qed.
+
+(* repeating the request repeats the same list, item by item (the v1 list is cached on the document, the shared
+   collector is refilled from the same tree); the response is a function of the tree and the parser diagnostics *)
+Theorem C16_response_idempotent : forall n t pd,
+  Forall (fun r => r = report t pd) (ReportProofs.requests n (fresh_rdoc t pd)).
+Proof. exact report_idempotent. Qed.
+
+Theorem C16_response_deterministic : forall d1 d2,
+  rdoc_ok d1 -> rdoc_ok d2 -> r_ast d1 = r_ast d2 -> r_pd d1 = r_pd d2 ->
+  fst (Report.request d1) = fst (Report.request d2).
+Proof. exact report_deterministic. Qed.
+
+(* locality (C16_lints_local and C15_report_decomposes lifted): removing / adding the top-level declaration m
+   changes the response by contrib m, a function of m's subtree alone; permuting the declarations permutes it *)
+Theorem C16_response_local : forall i r rg a p m q pd,
+  Permutation (report (Node KAstRoot i r rg a (p ++ m :: q)) pd)
+              (report (Node KAstRoot i r rg a (p ++ q)) pd ++ contrib m).
+Proof. exact report_local. Qed.
+
+Theorem C16_response_permute : forall i r rg a ch ch' pd,
+  Permutation ch ch' ->
+  Permutation (report (Node KAstRoot i r rg a ch) pd) (report (Node KAstRoot i r rg a ch') pd).
+Proof. exact report_permute. Qed.
+
+(* PARTIAL (by ranges): IF the items about m lie in m's range and the items about the other declarations do not
+   (facts about the parser's ranges that are hypotheses here), the items of the response lying in m's range are
+   the parser's own there plus contrib m *)
+Theorem C16_response_in_range_partial : forall i r rg a p m q pd,
+  Forall (fun d => in_range_of m d = true) (contrib m) ->
+  Forall (fun d => in_range_of m d = false) (report (Node KAstRoot i r rg a (p ++ q)) []) ->
+  Permutation (filter (in_range_of m) (report (Node KAstRoot i r rg a (p ++ m :: q)) pd))
+              (filter (in_range_of m) (map of_pdiag pd) ++ contrib m).
+Proof. exact report_in_range_partial. Qed.
+
+(* ---- non-vacuity: a file of the real parser with a syntax error at its end; the response has a parser
+        diagnostic and items of all five analysers; `init` carries two rules (casing, inherited) on one name
+        range and `Vx` three warnings (unused, unpurged, casing) on one range; brief = (origin, severity, line,
+        column).  The list is the real server's response (Proofs/ReportWitness.v) ---- *)
+Example C16_response_nonvacuous :
+  map brief (report w_resp w_resp_pd) =
+    [(0, 1, 15, 0); (1, 1, 7, 6); (1, 2, 5, 6); (1, 2, 6, 6); (1, 2, 8, 6); (1, 2, 11, 6); (2, 2, 4, 29);
+     (4, 2, 1, 6); (4, 2, 2, 5); (4, 2, 3, 0); (3, 2, 5, 6); (4, 2, 4, 5); (5, 2, 4, 5); (4, 2, 4, 10); (4, 2, 5, 6)]%N /\
+  map (fun k => length (own_report k w_resp w_resp_pd)) [0; 1; 2; 3; 4; 5]%N = [1; 5; 1; 1; 6; 1]%nat /\
+  RootNotFunction w_resp = true /\
+  (* the interleaving is observable: the collector's part is not the three lists one after the other *)
+  map of_lint (v2_walk w_resp) <> alone_unpurged w_resp ++ alone_naming w_resp ++ alone_inherited w_resp /\
+  (* two rules on the name `init`, three warnings on the token `Vx`, each exactly once *)
+  map (fun d => count_occ diag_eq_dec (report w_resp w_resp_pd) d)
+      (filter (fun d => (pline (rstart (d_range d)) =? 4) && (pcol (rstart (d_range d)) =? 5) ||
+                        (pline (rstart (d_range d)) =? 5) && (pcol (rstart (d_range d)) =? 6))%N
+              (report w_resp w_resp_pd)) = [1; 1; 1; 1; 1]%nat.
+Proof.
+  split; [vm_compute; reflexivity|]. split; [vm_compute; reflexivity|]. split; [reflexivity|].
+  split; [intro E; vm_compute in E; discriminate E | vm_compute; reflexivity].
+Qed.
+
+Example C16_response_nonvacuous_idempotent :
+  ReportProofs.requests 3 (fresh_rdoc w_resp w_resp_pd) =
+    [report w_resp w_resp_pd; report w_resp w_resp_pd; report w_resp w_resp_pd] /\
+  length (report w_resp w_resp_pd) = 15%nat.
+Proof. split; vm_compute; reflexivity. Qed.
+
+(* the function `init` (with its three flagged locals) as the top-level declaration m: the range hypotheses of the
+   partial theorem hold on the real tree, and the ten items in its range are contrib m *)
+Example C16_response_nonvacuous_local :
+  exists i r rg a p m q,
+    w_resp = Node KAstRoot i r rg a (p ++ m :: q) /\ m = w_resp_4 /\
+    Forall (fun d => in_range_of m d = true) (contrib m) /\
+    Forall (fun d => in_range_of m d = false) (report (Node KAstRoot i r rg a (p ++ q)) []) /\
+    map brief (contrib m) =
+      [(1, 1, 7, 6); (1, 2, 5, 6); (1, 2, 6, 6); (1, 2, 8, 6); (2, 2, 4, 29); (3, 2, 5, 6); (4, 2, 4, 5);
+       (4, 2, 4, 10); (4, 2, 5, 6); (5, 2, 4, 5)]%N /\
+    length (filter (in_range_of m) (report w_resp w_resp_pd)) = 10%nat.
+Proof.
+  unfold w_resp.
+  match goal with |- context [Node KAstRoot ?i ?r ?rg ?a _] =>
+    exists i, r, rg, a, [w_resp_0; w_resp_1; w_resp_2; w_resp_3], w_resp_4, [w_resp_5] end.
+  split; [reflexivity|]. split; [reflexivity|].
+  split; [apply Forall_forall; apply forallb_forall; vm_compute; reflexivity|].
+  split; [|split; vm_compute; reflexivity].
+  apply Forall_forall. intros d Hd.
+  assert (G : forallb (fun d => negb (in_range_of w_resp_4 d))
+                (report (Node KAstRoot [] 0 (mkRange (mkPos 0 0) (mkPos 0 0)) []
+                          ([w_resp_0; w_resp_1; w_resp_2; w_resp_3] ++ [w_resp_5])) []) = true)
+    by (vm_compute; reflexivity).
+  rewrite forallb_forall in G. specialize (G d Hd). destruct (in_range_of w_resp_4 d); [discriminate G | reflexivity].
+Qed.
+
+Print Assumptions C16_response_permutation.
+Print Assumptions C16_response_lints.
+Print Assumptions C16_response_rules_exact.
+Print Assumptions C16_response_each_source_intact.
+Print Assumptions C16_response_nothing_dropped_nothing_invented.
+Print Assumptions C16_response_in_own_source.
+Print Assumptions C16_response_multiplicity.
+Print Assumptions C16_response_multiplicity_sum.
+Print Assumptions C16_response_flagged_once.
+Print Assumptions C16_response_both_rules.
+Print Assumptions C16_response_parser_first.
+Print Assumptions C16_response_groups_in_order.
+Print Assumptions C16_response_shared_collector.
+Print Assumptions C16_response_idempotent.
+Print Assumptions C16_response_deterministic.
+Print Assumptions C16_response_local.
+Print Assumptions C16_response_permute.
+Print Assumptions C16_response_in_range_partial.
+Print Assumptions C16_response_nonvacuous.
+Print Assumptions C16_response_nonvacuous_idempotent.
+Print Assumptions C16_response_nonvacuous_local.
